@@ -135,3 +135,34 @@ Proof.
   - apply line_literal; assumption.
   - apply line_literal; [intros c _; reflexivity | assumption ..].
 Qed.
+
+(* round 4: every library-text placeholder that sits inside a static string literal of a template
+   is of a plain origin and is surrounded by plain text; for plain text the static literal then
+   denotes exactly before ++ text ++ after *)
+Lemma ident_sites_ok : forallb isite_ok ident_sites = true.
+Proof. vm_compute. reflexivity. Qed.
+
+Lemma forallb_inner_plain l : forallb inner_char_ok l = true -> Forall (fun c => plain_char c = true) l.
+Proof.
+  intros H. apply Forall_forall. intros c Hc. eapply forallb_forall in H; eauto.
+  unfold inner_char_ok in H. apply andb_true_iff in H. apply H.
+Qed.
+
+Theorem ident_site st :
+  In st ident_sites ->
+  forall q t rest, codes (i_quote st) = [q] ->
+  Forall (fun c => plain_char c = true) t -> ctx_ok rest = true ->
+  is_quote q = true /\
+  lex_string (q :: (codes (i_before st) ++ t ++ codes (i_after st)) ++ q :: rest)
+  = Some (codes (i_before st) ++ t ++ codes (i_after st), rest).
+Proof.
+  intros Hin q t rest Eq Ht Hc.
+  pose proof (proj1 (forallb_forall _ _) ident_sites_ok st Hin) as Hok.
+  unfold isite_ok in Hok. apply andb_true_iff in Hok. destruct Hok as [Hok Ha].
+  apply andb_true_iff in Hok. destruct Hok as [Hok Hb].
+  apply andb_true_iff in Hok. destruct Hok as [_ Hq]. rewrite Eq in Hq.
+  split; [exact Hq|].
+  apply quoted_plain_lex; [exact Hq | | exact Hc].
+  apply Forall_app. split; [apply forallb_inner_plain, Hb|].
+  apply Forall_app. split; [exact Ht | apply forallb_inner_plain, Ha].
+Qed.
